@@ -93,7 +93,7 @@ theorem lanczosCore_allIn (hA : ∀ x, InSector Z x → InSector Z (Afun x)) {v 
     intro w hw
     rw [List.mem_singleton.1 hw]
     exact inSector_vdiv _ _ hv
-  have hl := lanczosLoop_allIn (dnorm := dnorm) hA v.length (numiter - 1) 0 _ h0
+  have hl := lanczosLoop_allIn (dnorm := dnorm) hA v.length (min numiter v.length - 1) 0 _ h0
   split
   · exact hl
   · exact hl
